@@ -26,6 +26,7 @@ EXPLANATION = (
     "platform_ca->sgx_root with message/custom data/signature/key taken from the matching envelope "
     "fields, and the envelope parser compares the embedded custom message with the separately fetched "
     "one; the UI message paging reads up to MAX pages and only fails when a further page would be needed; "
+    "the UI attestation exchange (four requests in order, the page loop as LIMIT x MORE table), the endorsement answers taken apart at absolute offsets, the handshake's exchanges and signed payloads, the SGX envelope walked at consecutive offsets, the PEM chain as (pieces, condition, element); "
     "attestation opcodes and the legacy header equal the firmware's; the Ledger health check dominates "
     "the save. Does not decide acceptance of a real gathered certificate."
 )
